@@ -7,6 +7,7 @@ namespace Driver.Drv.CFHeaders
 /-- everything the trace declared so far -/
 structure Env where
   tf    : Std.HashMap Nat Nat := {}
+  fblk  : Std.HashMap Nat Nat := {}   -- filter id → the block it is a filter of
   htab  : Std.HashMap (Nat × Nat) Nat := {}
   np    : Nat := 0
   disc  : Bool := false
@@ -94,7 +95,7 @@ def showT : TOut → String
   | .errOther => "err other"
 
 def showW : WOut → String
-  | .ok l h => s!"ok {l} {h}" | .errTip => "err tip" | .errPrev => "err prev" | .errAnc => "err anc"
+  | .ok l h => s!"ok {l} {h}" | .errTip => "err tip" | .errPrev => "err prev" | .errAnc => "err other"
   | .misaligned => "err misaligned"
 
 def showRC : RCOut → String
@@ -135,13 +136,15 @@ def runCase : CaseFn := fun c => Id.run do
   let mut oldFs : List Nat := [1]
   let mut oldBt : Nat := 0
   let mut banned : List Nat := []
+  let mut resolveHonest := false   -- the last successful resolveConflict had an unbanned full true list among its inputs
   for (ln, line) in c.lines do
     let (op, obs) := splitObs line
     let ws := words op
     let fail (shape msg : String) : String :=
       s!"ORACLE-FAIL C03 case {c.num} line {ln}: shape={shape} {msg} :: {op} => {obs}"
     match ws with
-    | ["blk", b, f] => e := { e with tf := e.tf.insert (nat! b) (nat! f) }
+    | ["blk", b, f] => e := { e with tf := e.tf.insert (nat! b) (nat! f), fblk := e.fblk.insert (nat! f) (nat! b) }
+    | ["fb", f, b] => e := { e with fblk := e.fblk.insert (nat! f) (nat! b) }
     | ["hdr", i, f, p] => e := { e with htab := e.htab.insert (nat! f, nat! p) (nat! i) }
     | ["atom", _] => pure ()
     | "resp" :: p :: so :: prev :: rest =>
@@ -182,6 +185,7 @@ def runCase : CaseFn := fun c => Id.run do
       let mut servedLists : List (List Nat) := []
       let mut isRound := false
       let mut isFetch := false
+      let mut midChain : Option (List Nat) := none
       let mut cutTo : Option Nat := none
       match ws with
       | "init" :: rest =>
@@ -211,6 +215,17 @@ def runCase : CaseFn := fun c => Id.run do
         let r := writeMsg H st (nat! prev) (nat! stop) (fs.map nat!)
         cands := [(r.1, showW r.2 ++ " | " ++ showSt st r.1)]
         servedLists := [fs.map nat!]
+      | "tipround" :: "mid" :: h :: rest =>
+        isRound := true
+        let (ids, _) := bracket rest
+        for order in e.orders do
+          for pick in List.range (max 1 e.np) do
+            let r := tipRoundMid H true st (e.net pick order) (nat! h) (ids.map nat!)
+            let txt := showT r.2 ++ " | " ++ showSt st r.1
+            if !cands.any (fun x => x.2 == txt) then
+              cands := cands ++ [(r.1, txt)]
+        -- ground truth: the chain after the reorganisation
+        midChain := some ((chain.take (nat! h + 1)) ++ ids.map nat!)
       | ["tipround"] =>
         isRound := true
         for order in e.orders do
@@ -258,6 +273,39 @@ def runCase : CaseFn := fun c => Id.run do
           out := out.push (fail "tip-path-skips-hardcoded-checkpoint" "a filter header committed on the at-tip path differs from the hard-coded checkpoint at its height")
         else
           out := out.push (fail "checkpoint" "stored filter header differs from a hard-coded checkpoint")
+      -- ---------- checkpoint lists (implementation observations + ground truth only) ----------
+      if ws == ["resolve"] then
+        let bannedNow := peersOfBans d.bans
+        if ret.startsWith "ok" then
+          let good := (bracket ((words ret).drop 1)).1.map nat!
+          let agree (a b : List Nat) : Bool :=
+            (List.range (min a.length b.length)).all (fun i => a.getD i 0 == b.getD i 0)
+          -- the list handed back must agree with every list whose sender was not banned for it
+          match e.cpl.find? (fun pl => !bannedNow.contains pl.1 && !agree pl.2 good) with
+          | some pl =>
+            out := out.push (fail "resolve-ignores-disagreement" s!"resolveConflict returned a checkpoint list although peer {pl.1}, not banned, serves a list that contradicts it")
+          | none => pure ()
+          let tf := trueFs e chain
+          let trueCps := (List.range (tf.length / 1000)).map (fun i => tf.getD ((i + 1) * 1000) 0)
+          resolveHonest := e.cpl.any (fun pl => !bannedNow.contains pl.1 && pl.2.length ≥ good.length &&
+            pl.2 == trueCps.take pl.2.length)
+          if resolveHonest && good != trueCps.take good.length then
+            out := out.push (fail "honest-wins-checkpoints" "an honest peer offered the true checkpoint list and was not banned, yet resolveConflict returned a list with a false checkpoint")
+        else
+          resolveHonest := false
+      if isFetch && resolveHonest then
+        let tf := trueFs e chain
+        let bannedNow := d.bans
+        let honestEv (ev : CpEv) : Bool :=
+          let startH := ev.k * 1000 + 1
+          !ev.stopOk || (ev.prev == tf.getD (startH - 1) 0 &&
+            (List.range ev.hashes.length).all (fun j =>
+              ev.hashes.getD j 0 == (e.tf.get? (chain.getD (startH + j) 0)).getD 0))
+        for p in e.allPeers do
+          -- a peer all of whose answers carried the true filter hashes must not be banned for them
+          if e.evs.any (fun ev => ev.peer == p) && (e.evs.filter (fun ev => ev.peer == p)).all honestEv &&
+              bannedNow.contains s!"{p}:4" then
+            out := out.push (fail "honest-banned-in-fetch" s!"peer {p} answered the checkpointed queries with the true filter hashes only and was banned for it, although an honest checkpoint list had been offered")
       if isRound then
         let start := oldFs.length
         let stopH := if oldBt - start ≥ maxPerMsg then start + maxPerMsg - 1 else oldBt
@@ -276,7 +324,8 @@ def runCase : CaseFn := fun c => Id.run do
                            getBlock := net.getBlock, tip := (oldFs.getLast?).getD 0, start := start, n := n,
                            truth := fun h => (e.tf.get? (chain.getD h 0)).getD 0 }
         servedLists := livePeers.filterMap (fun p => (r.msgOf p).map (·.hashes))
-        if n > 0 && r.hyp then
+        -- (a round during which the chain was reorganised makes no honest-wins claim)
+        if n > 0 && midChain.isNone && r.hyp then
           let appended := d.fs.drop oldFs.length
           if !r.concl H appended (peersOfBans d.bans) then
             let shape := if r.shapeEarlyReturn then "detectBadPeers-early-return"
@@ -289,6 +338,20 @@ def runCase : CaseFn := fun c => Id.run do
           out := out.push (fail "unserved" "filter headers appended by the checkpointed fetch are not hash chains of delivered batches, each starting at the then-current tip")
       else if !appendedObs H oldFs d.fs servedLists then
         out := out.push (fail "unserved" "appended filter headers are not the hash chain of any served batch starting at the old tip")
+      match midChain with
+      | some c2 => chain := c2
+      | none => pure ()
+      -- (b) belongs: every appended entry was derived from a filter OF THE BLOCK now stored at its height
+      if !isFetch && d.fs.length > oldFs.length then
+        let tipOld := (oldFs.getLast?).getD 0
+        match servedLists.find? (fun c => d.fs == oldFs ++ chainFrom H tipOld c) with
+        | some c =>
+          let bad := (List.range c.length).any (fun j =>
+            let f := c.getD j 0
+            f != 0 && e.fblk.get? f != some (chain.getD (oldFs.length + j) 0))
+          if bad then
+            out := out.push (fail "not-its-block" "a committed filter header was derived from a filter of a block that is not the block stored at that height on the current chain")
+        | none => pure ()
       oldFs := d.fs
       oldBt := d.btH.getD 0
       banned := banned ++ peersOfBans d.bans
